@@ -361,6 +361,11 @@ func (am *Manager) Stop(graceful bool) error {
 	return nil
 }
 
+// BaseBlockHash returns the hash of the block whose state the manager is based on. It is the parent of the block in processing
+func (am *Manager) BaseBlockHash() common.Hash {
+	return am.baseBlockHash
+}
+
 func (am *Manager) CurrentBlockHeight() uint32 {
 	if am.baseBlock == nil {
 		return 0
